@@ -23,12 +23,13 @@ pub fn seed_rng(seed: u64, s: i64) -> ScriptRng {
 
 /// sample() of a freshly constructed value of registry entry `ei` on a copy of `rng`, evaluated in a
 /// new OS thread (no thread-local history): the history-free value of F(class, state)
-fn fresh_eval(ei: usize, rng: &ScriptRng) -> Option<(Result<Out, String>, ScriptRng)> {
+fn fresh_eval(ei: usize, mutated: bool, rng: &ScriptRng) -> Option<(Result<Out, String>, ScriptRng)> {
     let r0 = rng.clone();
     std::thread::spawn(move || {
         crate::util::install_quiet_panic_hook();
         let reg = registry();
-        let obj = (reg[ei].make)()?;
+        let mut obj = (reg[ei].make)()?;
+        if mutated { obj.mutate(); }
         let mut r = r0;
         let o = guarded(|| obj.sample(&mut r));
         Some((o, r))
@@ -40,6 +41,7 @@ pub fn run_instance(sched: &Value, ea: &Entry, eb: &Entry, ca: i64, cb: i64, see
     let (Some(a1), Some(b1), Some(a3)) = ((ea.make)(), (eb.make)(), (ea.make)()) else { return false };
     let mut objs: Vec<Box<dyn Obj>> = vec![a1, b1, a3];
     let mut maker: Vec<usize> = vec![0, 1, 0]; // which entry each object was built from
+    let mut mutated: Vec<bool> = vec![false, false, false];
     let mut rngs: Vec<ScriptRng> = vec![seed_rng(seed, 1), seed_rng(seed, 1)];
     let mut sid: Intern<(Vec<u64>, u64)> = Intern::new();
     let mut oid: Intern<Vec<u64>> = Intern::new();
@@ -66,7 +68,7 @@ pub fn run_instance(sched: &Value, ea: &Entry, eb: &Entry, ca: i64, cb: i64, see
                     // history-free reference for this (class, state): fresh value, fresh thread
                     fresh_done[o - 1] = true;
                     let ei = if maker[o - 1] == 0 { ca } else { cb } as usize - 1;
-                    if let Some((res, post_rng)) = fresh_eval(ei, &rngs[r - 1]) {
+                    if let Some((res, post_rng)) = fresh_eval(ei, mutated[o - 1], &rngs[r - 1]) {
                         let pre = sid.id(rng_key(&rngs[r - 1]));
                         let (rs, outid) = match res { Ok(x) => ("Ok".to_string(), oid.id(x.bits)), Err(p) => (format!("Panic: {}", p), 0) };
                         let post = sid.id(rng_key(&post_rng));
@@ -88,16 +90,23 @@ pub fn run_instance(sched: &Value, ea: &Entry, eb: &Entry, ca: i64, cb: i64, see
                 let post = sid.id(rng_key(&rngs[r - 1]));
                 out.push(json!({"op": "iter", "o": o, "r": r, "pre": pre, "outs": outs, "post": post, "res": rs}).to_string());
             }
-            "clone" => { let c = objs[a as usize - 1].clone_obj(); maker[o - 1] = maker[a as usize - 1]; objs[o - 1] = c; out.push(json!({"op": "clone", "o": o, "a": a, "res": "Ok"}).to_string()); }
+            "mutate" => {
+                let ok = guarded(|| objs[o - 1].mutate()).unwrap_or(false);
+                if ok { mutated[o - 1] = true; fresh_done[o - 1] = false; }
+                out.push(json!({"op": "mutate", "o": o, "res": if ok { "Ok" } else { "NotMutable" }}).to_string());
+            }
+            "clone" => { let c = objs[a as usize - 1].clone_obj(); maker[o - 1] = maker[a as usize - 1]; mutated[o - 1] = mutated[a as usize - 1]; objs[o - 1] = c; out.push(json!({"op": "clone", "o": o, "a": a, "res": "Ok"}).to_string()); }
             "rebuild" => {
                 let e = if maker[a as usize - 1] == 0 { ea } else { eb };
-                match (e.make)() { Some(c) => { maker[o - 1] = maker[a as usize - 1]; objs[o - 1] = c; out.push(json!({"op": "rebuild", "o": o, "a": a, "res": "Ok"}).to_string()); }
+                // a second value from equal parameters: of the current weights where those are exact, else built the same way
+                let built = if mutated[a as usize - 1] { objs[a as usize - 1].rebuild_equal().or_else(|| (e.make)().map(|mut c| { c.mutate(); c })) } else { (e.make)() };
+                match built { Some(c) => { maker[o - 1] = maker[a as usize - 1]; mutated[o - 1] = mutated[a as usize - 1]; objs[o - 1] = c; out.push(json!({"op": "rebuild", "o": o, "a": a, "res": "Ok"}).to_string()); }
                                    None => out.push(json!({"op": "rebuild", "o": o, "a": a, "res": "ConstructorFailed"}).to_string()) }
             }
             "roundtrip" => {
                 match roundtrip(objs[a as usize - 1].as_ref()) {
                     None => out.push(json!({"op": "roundtrip", "o": o, "a": a, "res": "NoSerdeImpl"}).to_string()),
-                    Some(Ok(c)) => { maker[o - 1] = maker[a as usize - 1]; objs[o - 1] = c; out.push(json!({"op": "roundtrip", "o": o, "a": a, "res": "Ok"}).to_string()); }
+                    Some(Ok(c)) => { maker[o - 1] = maker[a as usize - 1]; mutated[o - 1] = mutated[a as usize - 1]; objs[o - 1] = c; out.push(json!({"op": "roundtrip", "o": o, "a": a, "res": "Ok"}).to_string()); }
                     Some(Err(e)) => out.push(json!({"op": "roundtrip", "o": o, "a": a, "res": format!("Error: {}", e)}).to_string()),
                 }
             }
